@@ -1,12 +1,3 @@
 INIT Init
 NEXT Next
 INVARIANTS UniqueEnd MachineIsGrammar NoFaultNoError FaultIsReported RunAgrees Out
-
-CONSTANTS
-  MaxRecs = 1
-  SerialIds = {2, 3, 4}
-  TsigModes = {FALSE, TRUE}
-  Empties = TRUE
-  EmitBehaviours = FALSE
-  Shard = 0
-  NShards = 1
